@@ -87,4 +87,5 @@ func genC09(g *gen) {
 			g.emit("C01 %s vmul %s %s", name, hexList(v), hexList(w))
 		}
 	}
+	genC09Paths(g) // op classes of C09 itself (c09_paths.go): long structured vectors, sub-slice FFT, Poseidon2 constructors, SIS
 }
